@@ -53,7 +53,7 @@ func genCore(r *rng.R) string {
 // genIntToken: the grammar of the property's quantifier — quoted / bare, sign, zeros, blanks, junk, empty.
 func genIntToken(r *rng.R) []byte {
 	core := genCore(r)
-	switch r.Intn(20) {
+	switch r.Intn(22) {
 	case 0, 1, 2, 3, 4, 5, 6:
 		return []byte(`"` + core + `"`)
 	case 7, 8, 9, 10, 11:
@@ -73,8 +73,25 @@ func genIntToken(r *rng.R) []byte {
 		return []byte(genJSONScalar(r))
 	case 18:
 		return []byte(`"` + core + `.` + randDigits(r, r.Range(0, 3)) + `"`)
-	default:
+	case 19:
 		return []byte(core + r.Pick(".5", ".0", "e3", "E+2", "e-1", ".25e1"))
+	default:
+		// classes an edit keyed on length, exotic blanks, radix prefixes or a second sign would need
+		q := r.Pick(`"`, `"`, ``)
+		switch r.Intn(6) {
+		case 0:
+			return []byte(q + r.Pick("", "-") + strings.Repeat("0", r.Range(40, 90)) + randDigits(r, r.Range(1, 19)) + q)
+		case 1:
+			return []byte(q + randDigits(r, r.Range(60, 120)) + q)
+		case 2:
+			return []byte(q + r.Pick("\v", "\f", "\u00a0", "\ufeff", "\u2003") + core + q)
+		case 3:
+			return []byte(q + r.Pick("0x", "0X", "0b", "0o", "0_", "-0x") + randDigits(r, r.Range(1, 6)) + q)
+		case 4:
+			return []byte(q + r.Pick("+-", "--", "-+", "++", "- ", "+ ") + randDigits(r, r.Range(1, 12)) + q)
+		default:
+			return []byte(q + r.Pick("１２３", "٠١٢", "1２3", "1​2") + q)
+		}
 	}
 }
 
@@ -266,7 +283,7 @@ func genB64Token(r *rng.R) []byte {
 
 func genSQLScan(r *rng.R) string {
 	target := r.Pick("nano", "unix", "stamp", "t2u")
-	ty := r.Pick("i32", "u32", "i64", "u64", "int", "uint", "time", "other")
+	ty := r.Pick("i32", "u32", "i64", "u64", "int", "uint", "f64", "bool", "bytes", "str", "time", "null", "i64", "bytes", "str", "time")
 	var v string
 	switch ty {
 	case "i32":
@@ -275,18 +292,70 @@ func genSQLScan(r *rng.R) string {
 		v = strconv.FormatUint(uint64(uint32(genU64(r))), 10)
 	case "u64", "uint":
 		v = strconv.FormatUint(genU64(r), 10)
-	case "other":
-		v = "0"
+	case "f64":
+		v = strconv.FormatInt(int64(r.Intn(2000000000))-1000000000, 10)
+	case "bool":
+		v = r.Pick("0", "1")
+	case "bytes", "str":
+		// what a text-protocol driver delivers for a BIGINT column, and junk
+		switch r.Intn(5) {
+		case 0:
+			v = tokArg([]byte(r.Pick("1700000000", "1700000000000000000", "0", "-1", "", "abc", "1.5", " 1", "1e3", "9223372036854775807", "9223372036854775808", "-9223372036854775808", "-9223372036854775809")))
+		case 1:
+			v = tokArg(unq(genIntToken(r)))
+		default:
+			v = tokArg([]byte(genCore(r)))
+		}
+	case "time":
+		t := genTime(r)
+		v = strconv.FormatInt(t.sec, 10) + ":" + strconv.Itoa(t.nsec)
+	case "null":
+		v = "-"
 	default:
 		v = strconv.FormatInt(genI64(r), 10)
 	}
 	return "sql.scan " + target + " " + ty + " " + v
 }
 
+type genT struct {
+	sec  int64
+	nsec int
+	how  string
+}
+
+func dateT(y int) genT {
+	return genT{time.Date(y, 1, 1, 0, 0, 0, 0, time.UTC).Unix(), 0, "date" + strconv.Itoa(y)}
+}
+
+// genTime: genuine time.Time values — the zero value, calendar dates far outside 1678…2262, both edges of the
+// int64-nanosecond range ±1 ns, and random instants with and without sub-second parts.
+func genTime(r *rng.R) genT {
+	switch r.Intn(8) {
+	case 0:
+		return genT{zeroTimeUnix, 0, "zero"}
+	case 1:
+		return dateT(r.PickInt(1, 2, 1000, 1600, 1677, 1678, 1679, 1969, 1970, 1971, 2000, 2038, 2261, 2262, 2263, 2300, 9999, 10000, 99999, 292277026))
+	case 2:
+		// max/min int64 nanoseconds and their neighbours
+		return []genT{{9223372036, 854775807, "unix"}, {9223372036, 854775808, "unix"}, {9223372036, 854775806, "unix"}, {9223372037, 0, "unix"},
+			{-9223372037, 145224192, "unix"}, {-9223372037, 145224191, "unix"}, {-9223372037, 145224193, "unix"}, {-9223372038, 999999999, "unix"}}[r.Intn(8)]
+	case 3:
+		return genT{int64(r.Intn(4000000000)) - 2000000000, r.PickInt(0, 0, 1, 5, 999999999, r.Intn(1000000000)), "unix"}
+	case 4:
+		return genT{r.PickI64(0, 1, -1, 1<<31-1, 1<<31, -(1 << 31), 1<<32, 1<<40, -(1 << 40), 253402300799, 253402300800, 1<<55, -(1 << 55)), r.PickInt(0, 0, 7, 999999999), "unix"}
+	default:
+		return genT{int64(r.U64()>>uint(r.Range(20, 40))) * int64(r.PickInt(1, -1)), r.PickInt(0, r.Intn(1000000000)), "unix"}
+	}
+}
+
+func (t genT) args() string {
+	return strconv.FormatInt(t.sec, 10) + " " + strconv.Itoa(t.nsec) + " " + t.how
+}
+
 func malformedLine(r *rng.R) string {
 	return r.Pick("", "nop", "i64.dec", "i64.dec t:1 t:2", "i64.dec 123", "i64.dec t:%zz", "i64.dec t:%4", "i64.enc 5", "x64.dec t:1", "i64.rt abc", "i64.rt 9223372036854775808",
 		"u64.rt -1", "u64.rt 18446744073709551616", "byte.rt 256", "byte.rt 1,,2", "byte.rt a", "hex.rt 10 s 5", "hex.rt 16 x 5", "hex.dec 16 s", "hex.rt 16 u -1",
-		"b64.rt 41", "b64.rt x:4", "b64.rt x:zz", "b64.dec QQ", "sql.scan nano i64", "sql.scan moon i64 1", "sql.scan nano f64 1", "sql.rt nano", "sql.rt nano x", "dur.rt 1h", "i64 dec t:1")
+		"b64.rt 41", "b64.rt x:4", "b64.rt x:zz", "b64.dec QQ", "sql.scan nano i64", "sql.scan moon i64 1", "sql.scan nano f32 1", "sql.scan nano time 5", "sql.scan nano null 0", "sql.scan nano bool 2", "ntime.rtt 5 1000000000 unix", "ntime.rtt 5 0 mars", "sql.rtt stamp 5 0 unix", "dur.toml k:moon", "b64.scankind moon", "sql.rt nano", "sql.rt nano x", "dur.rt 1h", "i64 dec t:1")
 }
 
 func decLine(ty string, tok []byte) string { return ty + ".dec " + tokArg(tok) }
@@ -330,7 +399,18 @@ func genCase(r *rng.R, tier string, i int) corr.Case {
 		return corr.Case{Tag: "tokens-dur", Lines: lines}
 	case cls < 17:
 		for len(lines) < n {
-			switch r.Intn(7) {
+			switch r.Intn(10) {
+			case 7, 8:
+				lines = append(lines, r.Pick("ntime.rtt", "ntime.rtt", "utime.rtt")+" "+genTime(r).args())
+			case 9:
+				switch r.Intn(4) {
+				case 0:
+					lines = append(lines, "dur.toml "+r.Pick("k:int", "k:bytes", "k:nil", "k:float"), "b64.scankind "+r.Pick("int", "nil", "float", "time"))
+				case 1:
+					lines = append(lines, "byte.fromstr "+tokArg(unq(genByteToken(r))))
+				default:
+					lines = append(lines, "dur.toml "+tokArg(unq(genDurToken(r))))
+				}
 			case 0:
 				lines = append(lines, "u64.rt "+strconv.FormatUint(genU64(r), 10))
 			case 1:
@@ -377,7 +457,11 @@ func genCase(r *rng.R, tier string, i int) corr.Case {
 		for len(lines) < n {
 			switch r.Intn(5) {
 			case 0:
-				lines = append(lines, "sql.rt "+r.Pick("nano", "unix", "stamp", "t2u")+" "+strconv.FormatInt(genI64(r), 10))
+				if r.Bool() {
+					lines = append(lines, "sql.rtt "+r.Pick("nano", "unix")+" "+genTime(r).args())
+				} else {
+					lines = append(lines, "sql.rt "+r.Pick("nano", "unix", "stamp", "t2u")+" "+strconv.FormatInt(genI64(r), 10))
+				}
 			case 1:
 				l := malformedLine(r)
 				if l == "" {
@@ -424,6 +508,18 @@ func fixedCases() []corr.Case {
 	out = append(out, c("boundary-duration", `dur.dec t:"9223372036854775808ns9223372036854775808ns"`, `dur.dec t:"9223372036854775808ns1ns"`, `dur.dec t:"9223372036854775808ns"`,
 		`dur.dec t:"-9223372036854775808ns"`, `dur.dec t:"2562047h47m16.854775807s"`, `dur.dec t:"2562047h47m16.854775808s"`, `dur.dec t:"-2562047h47m16.854775808s"`,
 		`dur.dec t:"0"`, `dur.dec t:"-0"`, `dur.dec t:"00"`, `dur.dec t:".s"`, `dur.dec t:"1.s"`, `dur.dec t:".5s"`, `dur.dec t:"1h1h"`, `dur.dec t:"1%C2%B5s"`, `dur.dec t:"1%CE%BCs"`, `dur.dec t:"1us"`))
+	out = append(out,
+		c("witness-time-outside-unixnano", "ntime.rtt "+genT{zeroTimeUnix, 0, "zero"}.args(), "ntime.rtt "+dateT(2300).args(), "ntime.rtt "+dateT(1600).args(),
+			"ntime.rtt 9223372036 854775807 unix", "ntime.rtt 9223372036 854775808 unix", "ntime.rtt -9223372037 145224192 unix", "ntime.rtt -9223372037 145224191 unix",
+			"sql.rtt nano "+genT{zeroTimeUnix, 0, "zero"}.args(), "sql.rtt nano "+dateT(2300).args(), "sql.rtt nano 9223372036 854775808 unix",
+			"utime.rtt "+genT{zeroTimeUnix, 0, "zero"}.args(), "utime.rtt "+dateT(10000).args(), "utime.rtt "+dateT(292277026).args(), "utime.rtt 1577836800 5 unix",
+			"sql.rtt unix "+genT{zeroTimeUnix, 0, "zero"}.args(), "sql.rtt unix "+dateT(99999).args()),
+		c("witness-scan-kinds", "sql.scan nano bytes t:1700000000000000000", "sql.scan unix bytes t:1700000000", "sql.scan unix str t:1700000000", "sql.scan nano f64 5", "sql.scan unix bool 1",
+			"sql.scan nano time 1700000000:5", "sql.scan unix null -", "sql.scan nano u64 9223372036854775808", "sql.scan unix uint 18446744073709551615", "sql.scan unix i64 1700000000",
+			"sql.scan stamp i64 5", "sql.scan stamp str t:2024", "sql.scan t2u bytes t:5", "sql.scan stamp null -", "sql.scan stamp time 1700000000:999999999", "sql.scan t2u f64 1",
+			"sql.scan unix bytes t:abc", "sql.scan unix str t:", "sql.scan nano str t:9223372036854775808"),
+		c("other-entry-points", "dur.toml t:1h2m3.5s", "dur.toml t:-5s", "dur.toml t:15m", "dur.toml t:0", "dur.toml t:", "dur.toml t:5", "dur.toml k:int", "dur.toml k:bytes", "dur.toml k:nil",
+			"byte.fromstr t:1/2/3", "byte.fromstr t:", "byte.fromstr t:256", "byte.fromstr t:-1", "byte.fromstr t:1//2", "b64.scankind int", "b64.scankind nil"))
 	out = append(out, c("malformed", "nop", "i64.dec", "i64.dec t:%zz", "i64.rt 9223372036854775808", "hex.rt 10 s 5", "b64.rt x:4", "sql.scan moon i64 1"))
 	return out
 }
